@@ -254,6 +254,28 @@ CLAIMS.update({
         ref="DESIGN.md section 4 C19 and 13"),
 })
 
+
+CLAIMS.update({
+    "C17": dict(
+        text="Theorems in coq/Props/C17.v (59 statements) about three-outcome models (Ok / Err / Panic site) in coq/Model/PanicSites.v of every "
+             "Result-returning public function the property lists: the 14 inventoried panic-capable expressions on those paths (unwrap, "
+             "indexing, str slicing, usize arithmetic, capacity overflow, the former unimplemented!) are explicit Panic branches guarded by "
+             "their firing conditions, and for ALL arguments (sizes below usize::MAX entries / isize::MAX bytes / count*8 <= isize::MAX, "
+             "stated as hypotheses and shown necessary) no branch fires (c17_no_panic_* for 19 functions), the three-outcome models equal the "
+             "total models of Model/*.v (c17_guards_*), the exact Err conditions hold per API (c17_err_iff_*), and c17_world equates those "
+             "outcomes with the observations of the world model. Tie: on every run the panic-token inventory of 13 source files is re-scanned "
+             "into coq/gen/PanicInventory.v and compared by reflexivity (a new unwrap/expect/panic!/unimplemented!/unreachable!/assert! in "
+             "those functions breaks an obligation); the world model is compared inside Coq with a debug AND a release harness on "
+             "nasty-argument sweeps under catch_unwind; spec_c17 / spec_c17_enc (from the property text) are evaluated on the "
+             "implementation's own answers, including encoders writing to a writer that fails after n bytes.",
+        note="Partial by nature: the theorem covers the inventoried panic sites; allocation failure, poisoned locks after a foreign panic and "
+             "panics in user callbacks are covered only by the sweep. The free functions register/unregister on the default registry are "
+             "covered by theorem only. NaN / overflowing parameters of linear_buckets / exponential_buckets are not treated as 'invalid "
+             "arguments' (only the documented conditions are): the helpers may return a list that Histogram::with_opts then refuses with "
+             "Err (pinned as c17_ex_helpers_let_nan_through). The scanner is trusted. No axioms (kernel primitives only).",
+        ref="DESIGN.md section 4 C17 and section 13"),
+})
+
 NOT_YET = "the technique applies (see DESIGN.md section 4) but the check is not finished, so the property is not claimed"
 
 # properties not claimed for a reason other than "not finished"
